@@ -16,6 +16,10 @@ import time
 import traceback
 from fractions import Fraction
 
+try:
+    sys.set_int_max_str_digits(0)
+except AttributeError:
+    pass
 VERIF = os.path.dirname(os.path.dirname(os.path.abspath(__file__)))
 REPLAY_DIR = os.path.join(VERIF, "replays")
 EVID_DIR = os.path.join(VERIF, "evidence")
@@ -26,7 +30,7 @@ EXIT_OK, EXIT_VIOLATION, EXIT_INCONCLUSIVE, EXIT_REPRODUCED = 0, 1, 2, 10
 
 class Instance:
     def __init__(self, prop, harness, params=None, uf=False, name=None, cover=(), max_paths=4000,
-                 rlimit=20_000_000, refine_rlimit=60_000_000, weight=1):
+                 rlimit=20_000_000, refine_rlimit=60_000_000, weight=1, time_limit=None):
         self.prop = prop
         self.harness = harness  # "module:function" below vf.props
         self.params = params or {}
@@ -37,6 +41,7 @@ class Instance:
         self.rlimit = rlimit
         self.refine_rlimit = refine_rlimit
         self.weight = weight
+        self.time_limit = time_limit
 
     def as_dict(self):
         return dict(self.__dict__)
